@@ -15,6 +15,8 @@ CONSTANTS
   GuardedConn = TRUE
   PerCycleWG = TRUE
   SubscribeMayFail = TRUE
+  StartMayFail = FALSE
+  ResetOnFailedStart = TRUE
   Script <- MCScriptL
 PROPERTIES ShutdownReturns ServeReturns AcceptedRuns FailedServeReturns
 CHECK_DEADLOCK FALSE
